@@ -26,7 +26,7 @@ def handle (op : String) (c i : Json) : Except String (Json × String) := do
         J.obj [("raised", Json.bool false), ("same", Json.bool true),
                -- a BA_ line that matches its pattern but gives a non-number to an INT/HEX/FLOAT attribute raises in
                -- check_numeric_attribute (kind "wrongvalue"): printed
-               ("printed", J.ofList ((List.zip bads kinds).map fun (b, k) => Json.bool (k == "wrongvalue" || k == "raises" || (k != "matchok" && printsError b.toList))))]
+               ("printed", J.ofList ((List.zip bads kinds).map fun (b, k) => Json.bool (k == "wrongvalue" || k == "raises" || (k != "matchok" && k != "early" && printsError b.toList))))]
       else J.obj [("raised", Json.bool false), ("same", Json.bool true), ("errors", J.ofNat expected)]
     let s := if raised then "fail: loading a file with malformed lines raised"
       else if !same then "fail: well-formed content differs when malformed lines are present"
